@@ -1,6 +1,7 @@
 //! C06: relational runs on the real code — (prefix, whole) bit-for-bit; (history A ++ window,
 //! history B ++ window) within rounding, exactly for min/max/arg/rank.
 use crate::catalog::*;
+use crate::catalog::RollFn;
 use crate::cases::*;
 use crate::proto::{split_list, Req};
 use crate::rng::Rng;
@@ -68,22 +69,83 @@ pub fn run(r: &Req) -> Option<String> {
     }
 }
 
+/// per-position tolerance of the history-replacement comparison: the conditioning term of the
+/// window itself (as `catalog::cond_tols`) plus the residue the one-pass accumulators keep from a
+/// pre-window history of magnitude `H`: absolute error ~ eps * n * H^p in the p-th power sum, i.e.
+/// ~ eps * n * (H / sd)^p relative to the window's own scale `sd`. A constant window (sd = 0) has
+/// no scale to compare against (the EPS floor decides between 0 and noise): skipped (inf).
+fn hist_tols(r: &Req, f: &RollFn) -> Vec<f64> {
+    let w = r.usize("w").max(1);
+    let p = f.pow as f64;
+    let xs = r.series("xs");
+    let ys = if f.arity == 2 { r.series("ys") } else { vec![] };
+    let maxabs = |k: &str| r.series(k).iter().filter_map(|v| *v).fold(0f64, |a, b| a.max(b.abs()));
+    let h = maxabs("ha").max(maxabs("hb")).max(maxabs("ga")).max(maxabs("gb"));
+    let n_hist = (r.list("ha").len() + xs.len()) as f64;
+    let stats = |v: &[Option<f64>], mask: &[bool]| -> (f64, f64, f64) {
+        let vals: Vec<f64> = v.iter().zip(mask.iter()).filter(|(_, m)| **m).filter_map(|(x, _)| *x).collect();
+        let n = vals.len() as f64;
+        if vals.is_empty() {
+            return (1.0, 0.0, 0.0);
+        }
+        let s1: f64 = vals.iter().copied().fold(0.0, |a, b| a + b);
+        let s2: f64 = vals.iter().map(|x| x * x).fold(0.0, |a, b| a + b);
+        let ex2 = s2 / n;
+        let var = (ex2 - (s1 / n) * (s1 / n)).max(0.0);
+        let kappa = if var <= 0.0 || ex2 <= 0.0 { 1.0 } else { (ex2 / var).max(1.0) };
+        (kappa, var.sqrt(), ex2.sqrt())
+    };
+    let mut out = vec![];
+    for j in (w - 1)..xs.len().max(w - 1) {
+        let lo = (j + 1).saturating_sub(w);
+        let wx = &xs[lo..=j.min(xs.len() - 1)];
+        let (kappa, sd, scale) = if f.arity == 2 && ys.len() == xs.len() {
+            let wy = &ys[lo..=j];
+            let mask: Vec<bool> = wx.iter().zip(wy.iter()).map(|(a, b)| a.is_some() && b.is_some()).collect();
+            let (k1, s1, c1) = stats(wx, &mask);
+            let (k2, s2, c2) = stats(wy, &mask);
+            (k1.max(k2), s1.min(s2), c1.max(c2))
+        } else {
+            stats(wx, &vec![true; wx.len()])
+        };
+        let mut t = 1e-9 + 256.0 * f64::EPSILON * kappa.powf(p / 2.0);
+        if h > 0.0 && f.pow >= 1 {
+            if sd <= 0.0 && f.pow >= 2 {
+                t = f64::INFINITY;
+            } else {
+                let denom = if f.pow >= 2 { sd } else { 1.0 };
+                t += 64.0 * f64::EPSILON * n_hist * (h.max(scale) / denom).powf(p);
+            }
+        }
+        out.push(t);
+    }
+    out
+}
+
 pub fn compare(r: &Req, imp: &str, model: &str) -> Option<bool> {
     if r.f != "C06hist" {
         return None;
     }
     let Some((a, b)) = imp.split_once(';') else { return Some(false) };
-    let f = find(r.s("f"));
-    let exact = f.map(|f| f.exact).unwrap_or(false);
-    if exact {
+    let f = find(r.s("f"))?;
+    if f.exact {
         // exactly not at all: the two runs must agree token for token, and with the model
         if a != b {
             return Some(false);
         }
     }
-    let mode = crate::cmp::Mode { rel: r.f64("tol").max(1e-9), int_out: false, null_is_zero: false };
+    let tols = if f.exact { vec![] } else { hist_tols(r, f) };
+    // positions whose tolerance is not finite carry no information: blank them on all sides
+    let blank = |line: &str| -> String {
+        let t: Vec<&str> = crate::proto::split_list(line);
+        let v: Vec<String> = t.iter().enumerate().map(|(i, x)| if tols.get(i).map(|z| !z.is_finite()).unwrap_or(false) { "?".to_string() } else { x.to_string() }).collect();
+        if v.is_empty() { "[]".into() } else { v.join(",") }
+    };
+    let mode = crate::cmp::Mode { rel: 1e-9, int_out: false, null_is_zero: false };
     let m = model.split(';').next().unwrap_or("");
-    Some(crate::cmp::line_eq(a, m, mode) && crate::cmp::line_eq(b, m, mode))
+    let (a, b, m) = (blank(a), blank(b), blank(m));
+    let finite: Vec<f64> = tols.iter().map(|t| if t.is_finite() { *t } else { 0.0 }).collect();
+    Some(crate::cmp::line_eq_tols(&a, &m, mode, Some(&finite)) && crate::cmp::line_eq_tols(&b, &m, mode, Some(&finite)))
 }
 
 pub fn valid_case(r: &Req) -> bool {
@@ -149,12 +211,15 @@ pub fn generate(tier: &str, rng: &mut Rng) -> (Vec<String>, bool) {
             let mp = if rng.chance(0.2) && !(f.mp_none_needs_len_ge_w) { None } else { Some(rng.below(w + 1)) };
             // quick: |v| <= 64 keeps every power sum exact in f64; thorough adds large magnitudes
             let big = thorough && i % 3 == 0;
-            let mag: i64 = if big { 1 << rng.range(7, 20) } else { 64 };
-            let tol = if big { 1e-9 * (1.0 + (mag as f64).powi(f.pow as i32) * (hl + tl) as f64 * 1e-15 * 1e9) } else { 1e-9 };
+            // large pre-window magnitudes, bounded so that the residue bound stays informative:
+            // up to 2^20 for first-power sums, 2^12 / 2^9 / 2^7 for second / third / fourth powers
+            let top = match f.pow { 0 | 1 => 20, 2 => 12, 3 => 9, _ => 7 };
+            let mag: i64 = if big { 1 << rng.range(7, top) } else { 64 };
+            let tol = 0.0;
             let xs = rand_series(rng, tl, 8, false, f.nullable);
             let ha = rand_series(rng, hl, mag, false, f.nullable);
             let hb = rand_series(rng, hl, mag, false, f.nullable);
-            let mut l = format!("C06hist f={} w={} mp={} t=f64 o=f64 tol={:e} xs={} ha={} hb={}{}", f.name, w, mp_tok(mp), tol, join(&xs), join(&ha), join(&hb), f.extra);
+            let mut l = format!("C06hist f={} w={} mp={} t=f64 o=f64 tol={} xs={} ha={} hb={}{}", f.name, w, mp_tok(mp), tol, join(&xs), join(&ha), join(&hb), f.extra);
             if f.arity == 2 {
                 let ys = rand_series(rng, tl, 8, false, f.nullable);
                 let ga = rand_series(rng, hl, mag, false, f.nullable);
